@@ -5,3 +5,4 @@ import FcGen.KSrcIdx
 import FcGen.KSrcPS
 import FcGen.KSrcGrp
 import FcGen.KSrcFam
+import FcGen.KSrcFam2
